@@ -21,6 +21,12 @@ class Tokenizer:
         self.fl, self.cfg = fi.flow, fi.cfg
         fl, cfg = self.fl, self.cfg
         _, (self.table_name, self.table, self.table_node) = tables.fragment_symbol_table(repo)
+        # local names that are plain aliases of the table (bond_to_order = BOND_TO_ORDER)
+        self.table_names = {self.table_name}
+        for d in fi.flow.defs:
+            if d.kind == "assign" and not d.path and isinstance(d.value, ast.Name) and d.value.id == self.table_name and \
+                    len([x for x in fi.flow.defs if x.var == d.var and x.kind not in ("unbound",)]) == 1:
+                self.table_names.add(d.var)
         loops = [st for st in fi.node.body if isinstance(st, ast.For)]
         need(len(loops) == 1, "expected one top-level token loop in strip_bonding_descriptors, found %d" % len(loops), fi)
         self.loop = loops[0]
@@ -79,7 +85,7 @@ class Tokenizer:
         for st in self.branches[sb][1]:
             for sub in ast.walk(st):
                 if isinstance(sub, ast.Assign) and isinstance(sub.targets[0], ast.Name) and isinstance(sub.value, ast.Subscript) and \
-                        isinstance(sub.value.value, ast.Name) and sub.value.value.id == self.table_name and \
+                        isinstance(sub.value.value, ast.Name) and sub.value.value.id in self.table_names and \
                         isinstance(sub.value.slice, ast.Name) and sub.value.slice.id == self.token:
                     self.PENDING = sub.targets[0].id
         need(self.PENDING, "cannot identify the pending-order variable (no `x = table[token]` in the symbol branch)", fi)
@@ -97,7 +103,7 @@ class Tokenizer:
                     break
                 ev = Evaluator()
                 try:
-                    v = ev.truth(ev.eval(test, {self.token: ch, self.table_name: dict(self.table)}))
+                    v = ev.truth(ev.eval(test, dict({self.token: ch}, **{nm: dict(self.table) for nm in self.table_names})))
                 except Unsupported as err:
                     raise AnalysisError("dispatch test outside the predicate language: %s" % err, self.fi.where(test))
                 if v:
@@ -209,7 +215,7 @@ def tok_rules(repo, tier="quick"):
     ok = len(sym_branches) == 1
     if ok:
         test, body, node = T.branches[sym_branches.pop()]
-        sets = T.assigns(body, T.PENDING, lambda v: isinstance(v, ast.Subscript) and isinstance(v.value, ast.Name) and v.value.id == T.table_name
+        sets = T.assigns(body, T.PENDING, lambda v: isinstance(v, ast.Subscript) and isinstance(v.value, ast.Name) and v.value.id in T.table_names
                          and isinstance(v.slice, ast.Name) and v.slice.id == T.token)
         apps = [a for a in T.text_appends(body) if isinstance(a[1], ast.Name) and a[1].id == T.token]
         ok = bool(sets) and T.all_paths_pass(body, sets) and bool(apps) and T.all_paths_pass(body, {a[0] for a in apps})
@@ -435,7 +441,79 @@ def tok_rules(repo, tier="quick"):
 
     # ---- invariant over admissible token successions
     obs += _invariant(T, darm)
+    # ---- the ring digit collector, executed on representative tails
+    obs += _collect_ring(repo)
     return obs
+
+
+class _Iter:
+    """model of read_fragments.PeekIter over a concrete string: next() and peek()"""
+
+    def __init__(self, text):
+        self.text, self.pos = text, 0
+
+
+def _collect_ring(repo):
+    """T0 for the ring branch: collect_ring_number returns exactly the ring characters it consumed and leaves the iterator
+    in front of the first character that is not part of a ring marker.  Decided by abstract execution of the function on
+    representative tails (single digits, %nn, mixtures; at the end of the text and in front of an atom / brace)."""
+    from ..absint import Raised
+    fi = repo.function("read_fragments:collect_ring_number")
+    P = fi.positional_params
+    need(len(P) >= 4, "collect_ring_number no longer takes (iterator, token, node, rings)", fi)
+    cases = []
+    for head in ("1", "12", "%10", "%10%11", "1%10", "%102", "%10%112", "2%10%11"):
+        for tail in ("", "C", ")", "(C)"):
+            cases.append((head, tail))
+    bad = []
+    n = 0
+    for head, tail in cases:
+        text = head + tail
+        it = _Iter(text)
+        it.pos = 1            # the caller's loop has consumed the first character: it is `token`
+
+        def hook(ev, call, env, it=it):
+            f = call.func
+            if isinstance(f, ast.Name) and f.id == "next" and len(call.args) == 1 and ev.eval(call.args[0], env) is it:
+                if it.pos >= len(it.text):
+                    raise Raised("StopIteration")
+                it.pos += 1
+                return True, it.text[it.pos - 1]
+            if isinstance(f, ast.Attribute) and f.attr == "peek" and ev.eval(f.value, env) is it:
+                return True, (it.text[it.pos] if it.pos < len(it.text) else None)
+            return False, None
+
+        rings = {}
+
+        def load(ev, expr, env, rings=rings):
+            # rings is a defaultdict(list): a missing key reads as a fresh list
+            if isinstance(expr, ast.Subscript) and isinstance(expr.value, ast.Name) and env.get(expr.value.id) is rings:
+                key = ev.eval(expr.slice, env)
+                key = key.concrete() if hasattr(key, "concrete") else key
+                return True, rings.setdefault(key, [])
+            return False, None
+        ev = Evaluator(call_hook=hook, load_hook=load)
+        n += 1
+        try:
+            kind, val = ev.run_function(fi.node, {P[0]: it, P[1]: text[0], P[2]: 7, P[3]: rings})
+        except Unsupported as err:
+            return [ob_undecided("TOK.T0-conservation", fi, construct="collect_ring_number on %r" % text, instance="ring-collect",
+                                 reason="outside the evaluator's language: %s" % err)]
+        if kind != "return" or not isinstance(val, tuple) or len(val) != 4:
+            bad.append((text, "ends with %s %r" % (kind, val if kind == "raise" else type(val).__name__)))
+            continue
+        got = val[2]
+        got = got if isinstance(got, str) else (got.concrete() if hasattr(got, "concrete") else got)
+        if got != head:
+            bad.append((text, "returns the ring text %r for the ring characters %r" % (got, head)))
+        elif it.pos != len(head):
+            bad.append((text, "leaves the iterator %d characters behind the ring characters" % (it.pos - len(head))))
+    if bad:
+        return [ob_fail("TOK.T0-conservation", fi, construct="collect_ring_number on %r %s" % b, instance="ring-collect",
+                        reason="the ring digits handed back to the tokenizer are not exactly the characters consumed from the fragment text: "
+                               "ring closures are lost from (or foreign characters enter) the cleaned SMILES") for b in bad[:3]]
+    return [ob_ok("TOK.T0-conservation", fi, construct="collect_ring_number on %d representative tails" % n, instance="ring-collect",
+                  reason="the returned text is the maximal run of ring characters and the iterator stops right behind it")]
 
 
 def _descriptor_split(T, bracket_branch):
@@ -567,7 +645,7 @@ def _descriptor_rules(T, bb, darm, dnode):
             seen["default"] = (d, gtexts)
         elif isinstance(v, ast.Name) and v.id == T.PENDING:
             seen["pending"] = (d, gtexts)
-        elif isinstance(v, ast.Subscript) and isinstance(v.value, ast.Name) and v.value.id == T.table_name and \
+        elif isinstance(v, ast.Subscript) and isinstance(v.value, ast.Name) and v.value.id in T.table_names and \
                 isinstance(v.slice, ast.Call) and isinstance(v.slice.func, ast.Name) and v.slice.func.id == "next":
             seen["leading"] = (d, gtexts)
         else:
@@ -622,7 +700,7 @@ def _descriptor_rules(T, bb, darm, dnode):
         for t, pol, g in gs:
             conj = t.values if isinstance(t, ast.BoolOp) and isinstance(t.op, ast.And) else [t]
             has_peek = any(isinstance(c, ast.Compare) and isinstance(c.ops[0], ast.In) and isinstance(c.comparators[0], ast.Name) and
-                           c.comparators[0].id == T.table_name and "peek" in ast.unparse(c.left) for c in conj)
+                           c.comparators[0].id in T.table_names and "peek" in ast.unparse(c.left) for c in conj)
             has_zero = any(isinstance(c, ast.Compare) and isinstance(c.ops[0], ast.Eq) and isinstance(c.left, ast.Name) and c.left.id == T.COUNTER and
                            isinstance(c.comparators[0], ast.Constant) and c.comparators[0].value == 0 for c in conj)
             if pol and has_peek and has_zero:
